@@ -124,7 +124,9 @@ func runC05(r *drv.Run) drv.Spec {
 				base += " wb=max"
 			}
 		}
-		jobs = append(jobs, &wd.Job{Text: "job=sweep axis=src " + base + "\n", Tag: it})
+		// exact-size source allocations: a read past the supplied bytes hits the
+		// sanitizer's red zone at every split point of the sweep
+		jobs = append(jobs, &wd.Job{Text: "job=sweep axis=src salloc=exact " + base + "\n", Tag: it})
 		used += len(it.Enc) + 1
 		perKind[it.Kind] += len(it.Enc) + 1
 		if !isImage(it.Kind) && !isHasher(it.Kind) && !isToken(it.Kind) && it.Payload != nil && len(it.Payload) <= maxLen {
@@ -195,6 +197,9 @@ func runC05(r *drv.Run) drv.Spec {
 			}
 			if mr.Intn(2) == 0 {
 				line += " close=late"
+			}
+			if k%2 == 1 {
+				line += " salloc=exact"
 			}
 			mjobs = append(mjobs, &wd.Job{Text: line + "\n", Tag: it})
 		}
